@@ -790,6 +790,12 @@ def rule_r8(ctx) -> List[R.Inst]:
     return insts
 
 
+def rule_dep(ctx):
+    """obligations inherited from shared code reached through the call graph (sa/props/deps.py)"""
+    from .deps import dep_insts
+    return dep_insts(ctx, "C06", ["reamber.quaver.QuaMap.QuaMap.read", "reamber.quaver.QuaMap.QuaMap.write"], skip_groups=())
+
+
 SPECS = [
     RuleSpec("C06.R1", rule_r1, 21, "A1", "metadata key table: same key, same field, inverse transform, own default"),
     RuleSpec("C06.R2", rule_r2, 30, "A1", "object codecs compose to the identity: list, item and chart-level readers against the list/item writers"),
@@ -799,6 +805,7 @@ SPECS = [
     RuleSpec("C06.R8", rule_r8, 6, "A3", "the writers do not modify the chart they serialise"),
     RuleSpec("C06.R7", rule_r7, 2, "A1", "read_file / write_file pass the text through unchanged (no doubled line breaks)"),
     RuleSpec("C06.R6", rule_r6, 11, "A8", "defaults for omitted keys are applied before use and leave no NaN"),
+    RuleSpec("C06.D", rule_dep, 1, "M0", "rules of the shared code (timing engine, list classes, stacker) that the operations of this property reach"),
 ]
 
 META = dict(
